@@ -78,11 +78,13 @@ structure RArr where
   cells : Option Cells := none         -- the block `_begin.item` points to (`none` = null)
   n : Nat := 0                         -- `_end.item - _begin.item`
 
+variable [ArrCfg]
+
 /-- `reserve(size)` -/
 def reserve (r : RArr) (size : Nat) : Option RArr :=
   if size > r.cap ∨ (r.cells.isNone ∧ size > 0) then
     let cap1 := if size > r.cap then size else r.cap
-    let cap2 := cap1 ||| 3                                            -- _capacity |= 0x03;
+    let cap2 := cap1 ||| ArrCfg.mask                                  -- _capacity |= <mask>;
     let fresh : Cells := List.replicate cap2 none                    -- new char[sizeof(T) * _capacity]
     match r.cells with
     | some old =>
